@@ -160,6 +160,9 @@ func main() {
 			}
 		}()
 		r.Run(c)
+		for _, more := range alsoRun[r.ID] {
+			more(c)
+		}
 	}()
 	if *extraCfg != "" {
 		c.Extra["other_build_configs"] = strings.TrimSuffix(*extraCfg, ",")
